@@ -449,6 +449,7 @@ package transport
 //@   assert at call writeData#1 strQuota == int(l.oiws)-str.bytesOutStanding && size <= max(strQuota, 0)
 //@   assert at call writeData#1 arg2 == (dataItem.endStream && remainingBytes == 0)
 //@   assert at call writeData#1 implies(!isEmpty, size > 0)
+//@   assert at call replenish#1 Z(remainingBytes) == Z(len(dataItem.h)) + lastret("Remaining") - Z(hSize) - Z(dSize) && remainingBytes >= 0
 //@   assert at call Peek#1 arg1 == dSize && dSize > 0
 //@   assert at call updateStreamAfterWrite#1 ncalls("dequeue") == ite(remainingBytes == 0, 2, 1) && ncalls("writeData") == 1
 //@   assert at call replenish#1 arg0 == size
